@@ -384,6 +384,67 @@ func replayGrid(rec *hx.Recorder, raw json.RawMessage) {
 	}
 }
 
+// chainVariant returns a copy of s for use as a later member of a chain:
+// with the definitions after the file_id definition removed (its data records
+// then use local types only an earlier member defined), and/or without the
+// file_id data record.
+func chainVariant(d gen.D, s *fitmodel.Stream) *fitmodel.Stream {
+	out := *s
+	out.Recs = nil
+	strip := d.Chance(60, "strip-defs")
+	dropID := d.Chance(50, "drop-fileid-data")
+	for i, r := range s.Recs {
+		if strip && r.IsDef && i > 0 {
+			continue
+		}
+		if dropID && !r.IsDef && i == 1 {
+			continue
+		}
+		out.Recs = append(out.Recs, r)
+	}
+	return &out
+}
+
+// chainCarry enumerates two-member chains in which the second member uses a
+// local type that only the first member defined: every known message number
+// and a few unknown ones x local types {0,1,5,15} x second-member shapes
+// (data record first / after the file_id definition / after a whole file_id).
+func chainCarry(rec *hx.Recorder) {
+	fileIDDef := fitmodel.Rec{IsDef: true, Local: 0, Global: 0, Fields: []fitmodel.FieldDef{{Num: 0, Size: 1, Base: 0x00}}}
+	globals := append([]uint16{}, prof.MsgNums()...)
+	globals = append(globals, gen.UnknownMsgPool()[0], 1000, 0xFF00, 0xFFFF)
+	n := int64(0)
+	for _, g := range globals {
+		for _, l := range []byte{0, 1, 5, 15} {
+			def := fitmodel.Rec{IsDef: true, Local: l, Global: g, Fields: []fitmodel.FieldDef{{Num: 0, Size: 1, Base: 0x02}, {Num: 253, Size: 4, Base: 0x86}}}
+			data := fitmodel.Rec{Local: l, Raw: []byte{7, 1, 2, 3, 4}}
+			first := &fitmodel.Stream{HeaderSize: 14, Proto: 0x20, Recs: []fitmodel.Rec{fileIDDef, {Local: 0, Raw: []byte{4}}, def, data}}
+			for shape := 0; shape < 3; shape++ {
+				second := &fitmodel.Stream{HeaderSize: 12, Proto: 0x10}
+				switch shape {
+				case 0:
+					second.Recs = []fitmodel.Rec{data}
+				case 1:
+					second.Recs = []fitmodel.Rec{fileIDDef, data}
+				case 2:
+					second.Recs = []fitmodel.Rec{fileIDDef, {Local: 0, Raw: []byte{4}}, data, data}
+				}
+				if l == 0 && shape > 0 {
+					continue // the second member redefines local type 0 itself
+				}
+				img := append(first.Bytes(), second.Bytes()...)
+				n++
+				if msg, _ := guarded(0, "chain-carry", img, gen.NoFault("whole", 0), allEntries); msg != "" {
+					rec.Fail("chain-carry", "", fmt.Sprintf("%s\nsecond member of a chain uses local type %d, defined (message %d) only in the first member; shape %d", msg, l, g, shape),
+						byteCase{Data: hex.EncodeToString(img), Chunk: gen.NoFault("whole", 0)})
+					return
+				}
+			}
+		}
+	}
+	rec.Eval("chain-carry", n)
+}
+
 func TestC01(t *testing.T) {
 	hx.Main(t, "C01", func(rec *hx.Recorder) {
 		startWatchdog(rec)
@@ -404,14 +465,39 @@ func TestC01(t *testing.T) {
 
 		if hx.FirstShard() {
 			grid(t, rec) // enumerations run once, the rapid search in every shard
+			chainCarry(rec)
 		}
 
 		corpus := gen.SmallCorpus(20000)
 		hx.RapidCheck(t, rec, "mutants", func(rt *rapid.T, fail func(string, string, any)) {
 			d := gen.D{T: rt}
 			var data []byte
-			src := d.Int(0, 9, "src")
+			src := d.Int(0, 10, "src")
 			switch {
+			case src == 10:
+				// a chain of 2-3 images; later members are often structural
+				// variants of the first (definitions stripped, the file_id
+				// data record dropped), so that anything a decoder carries
+				// from one file of a chain into the next is exercised
+				o := gen.DefaultStreamOpts()
+				o.MaxRecs = 10
+				first, _ := gen.GenStream(d, o)
+				data = append(data, first.Bytes()...)
+				for k, n := 0, d.Int(1, 2, "chain-more"); k < n; k++ {
+					next := first
+					if d.Chance(30, "chain-fresh") {
+						next, _ = gen.GenStream(d, o)
+					}
+					next = chainVariant(d, next)
+					if d.Chance(30, "chain-specmut") {
+						next = gen.MutateSpec(d, next)
+					}
+					data = append(data, next.Bytes()...)
+				}
+				if d.Chance(30, "chain-bytemut") {
+					data = gen.MutateBytes(d, data)
+				}
+				rec.Class("chain-with-variant-members", 1)
 			case src < 6:
 				o := gen.DefaultStreamOpts()
 				o.OddStrings = true
